@@ -30,7 +30,7 @@
 #define NSENT 4
 #define CLS_SIZE 3
 
-enum { K_ARR, K_MAP, K_CLS, K_BUF, K_FN, K_STR, K_OBJ };
+enum { K_ARR, K_MAP, K_CLS, K_BUF, K_FN, K_STR, K_OBJ, K_PROG };
 
 static int lpc_mode = 0, started = 0, halted = 0;
 static object_t *main_ob = 0;
@@ -67,6 +67,13 @@ static long fn_refs (void)
 }
 static program_t *uobj_prog = 0;	/* program of /c06/uobj: its ref is printed as p:<uobj>/<base> */
 static program_t *base_prog = 0;	/* program of /c06/base, inherited by /c06/uobj */
+#define NLAY 4
+static const char *lay_name[NLAY] = { "11", "12", "21", "31" };
+static program_t *lay_prog[NLAY][3];	/* replace_program() family: programs ra<L>, rb<L>, rc<L> */
+static int lay_tracked[NLAY];
+static int objkind[NOBJ];		/* 0 = /c06/uobj, 1 + L = /c06/rc<L> */
+static int objrepl[NOBJ];		/* replace_program() done */
+extern void replace_programs (void);
 static int unloaded[2];		/* blueprint object of uobj / base destructed by `unload` */
 static long fault_first = 0;	/* fault-injection sweep: first instruction index after which the state differed */
 extern long verif_fault_countdown;	/* hook H2 (src/interpret.c): error raised at the k-th dispatched instruction */
@@ -188,6 +195,7 @@ static unsigned long cell_ref (int i)
     case K_BUF: return ((buffer_t *) p)->ref;
     case K_FN: return ((funptr_t *) p)->hdr.ref;
     case K_OBJ: return ((object_t *) p)->ref;
+    case K_PROG: return ((program_t *) p)->ref;
     case K_STR: return MSTR_REF ((char *) p);
     }
   return 0;
@@ -209,16 +217,7 @@ static void print_state (const char *status)
           *o++ = 'x';
           continue;
         }
-      unsigned long r = 0;
-      switch (cells[i].kind)
-        {
-        case K_ARR: case K_CLS: r = ((array_t *) p)->ref; break;
-        case K_MAP: r = ((mapping_t *) p)->ref; break;
-        case K_BUF: r = ((buffer_t *) p)->ref; break;
-        case K_FN: r = ((funptr_t *) p)->hdr.ref; break;
-        case K_OBJ: r = ((object_t *) p)->ref; break;
-        case K_STR: r = MSTR_REF ((char *) p); break;
-        }
+      unsigned long r = cell_ref (i);
       o += sprintf (o, "%lu", r);
       if (o - buf > (long) sizeof buf - 64)
         break;
@@ -285,6 +284,7 @@ static void put_slot (int d, svalue_t v)
   *slot (d) = v;
 }
 
+static const char *clone_name = "/c06/uobj";
 static object_t *clone_uobj (void)
 {
   error_context_t econ;
@@ -295,7 +295,7 @@ static object_t *clone_uobj (void)
       object_t *save = current_object;
       eval_cost = CONFIG_INT (__MAX_EVAL_COST__);
       current_object = master_ob;
-      ob = clone_object ("/c06/uobj", 0);
+      ob = clone_object (clone_name, 0);
       current_object = save;
       pop_context (&econ);
     }
@@ -462,6 +462,22 @@ static int unit_op (int n, char **t, int *a)
       add_ref (ob, "c06 handle");
       uhandle[a[1]] = ob;
     }
+  else if (!strcmp (t[0], "newobjr"))
+    {
+      char nm[32];
+      object_t *ob;
+      snprintf (nm, sizeof nm, "/c06/rc%s", lay_name[a[2]]);
+      clone_name = nm;
+      ob = clone_uobj ();
+      clone_name = "/c06/uobj";
+      if (!ob)
+        {
+          vh_out ("harness-error clone");
+          return 0;
+        }
+      add_ref (ob, "c06 handle");
+      uhandle[a[1]] = ob;
+    }
   else if (!strcmp (t[0], "setvar"))
     assign_svalue (&hobj (a[1])->variables[a[2]], slot (a[3]));
   else if (!strcmp (t[0], "getvar"))
@@ -589,7 +605,11 @@ static int applicable (int n, char **t, int *a)
   if (!strcmp (op, "newmstr"))
     return n == 3 && SL (a[1]);
   if (!strcmp (op, "newfun"))
-    return n == 4 && SL (a[1]) && SL (a[3]) && objok (a[2]);
+    return n == 4 && SL (a[1]) && SL (a[3]) && objok (a[2]) && !objkind[a[2]];
+  if (!strcmp (op, "newobjr"))
+    return n == 3 && a[1] >= 0 && a[1] < NOBJ && a[2] >= 0 && a[2] < NLAY && !hobj (a[1]) && !exist_used[a[1]];
+  if (!strcmp (op, "replace"))
+    return n == 3 && objok (a[1]) && objkind[a[1]] && !objrepl[a[1]] && a[2] >= 0 && a[2] < 2;
   if (!strcmp (op, "fill"))
     return n == 4 && SL (a[1]) && SL (a[3]) && a[2] > 0;
   if (!strcmp (op, "assign"))
@@ -623,9 +643,9 @@ static int applicable (int n, char **t, int *a)
   if (!strcmp (op, "newobj"))
     return n == 2 && a[1] >= 0 && a[1] < NOBJ && !hobj (a[1]) && !exist_used[a[1]] && !unloaded[0];
   if (!strcmp (op, "setvar"))
-    return n == 4 && objok (a[1]) && a[2] >= 0 && a[2] < NVAR && SL (a[3]);
+    return n == 4 && objok (a[1]) && a[2] >= 0 && a[2] < NVAR && a[2] < (int) hobj (a[1])->prog->num_variables_total && SL (a[3]);
   if (!strcmp (op, "getvar"))
-    return n == 4 && objok (a[2]) && a[3] >= 0 && a[3] < NVAR && SL (a[1]);
+    return n == 4 && objok (a[2]) && a[3] >= 0 && a[3] < NVAR && a[3] < (int) hobj (a[2])->prog->num_variables_total && SL (a[1]);
   if (!strcmp (op, "oref"))
     return n == 3 && objok (a[2]) && SL (a[1]) && !lpc_mode;
   if (!strcmp (op, "dest"))
@@ -635,16 +655,16 @@ static int applicable (int n, char **t, int *a)
   if (!strcmp (op, "drop"))
     return n == 2 && a[1] >= 0 && a[1] < NOBJ && hobj (a[1]) != 0;
   if (!strcmp (op, "call"))
-    return n == 6 && a[1] >= 0 && a[1] < NCALL && objok (a[2]) && a[3] >= 0 && a[3] <= 3 && SL (a[4]) && SL (a[5]) && !call_used[a[1]];
+    return n == 6 && a[1] >= 0 && a[1] < NCALL && objok (a[2]) && !objkind[a[2]] && a[3] >= 0 && a[3] <= 3 && SL (a[4]) && SL (a[5]) && !call_used[a[1]];
   if (!strcmp (op, "rmcall"))
     return n == 2 && a[1] >= 0 && a[1] < NCALL && call_used[a[1]];
   if (!strcmp (op, "rmcalln"))
     return n == 2 && a[1] >= 0 && a[1] < NCALL && call_used[a[1]] && call_st[a[1]] && objok (call_owner[a[1]])
       && hobj (call_owner[a[1]]) == call_ownerp[a[1]];
   if (!strcmp (op, "rmall"))
-    return n == 2 && objok (a[1]);
+    return n == 2 && objok (a[1]) && !objkind[a[1]];
   if (!strcmp (op, "sent"))
-    return n == 5 && a[1] >= 0 && a[1] < NSENT && objok (a[2]) && SL (a[3]) && SL (a[4]) && !sent_used[a[1]];
+    return n == 5 && a[1] >= 0 && a[1] < NSENT && objok (a[2]) && !objkind[a[2]] && SL (a[3]) && SL (a[4]) && !sent_used[a[1]];
   if (!strcmp (op, "rmsent"))
     return n == 2 && a[1] >= 0 && a[1] < NSENT && sent_used[a[1]] && objok (sent_owner[a[1]])
       && hobj (sent_owner[a[1]]) == sent_ownerp[a[1]];
@@ -671,7 +691,7 @@ static int applicable (int n, char **t, int *a)
       return n == 5 && lpc_mode && a[2] >= 0 && a[2] <= a[3] && (size_t) a[3] < SVALUE_STRLEN (sv) && strlen (t[4]) > 0;
     }
   if (!strcmp (op, "inp"))
-    return n == 4 && objok (a[1]) && SL (a[2]) && SL (a[3]) && !input_pending && user_ob;
+    return n == 4 && objok (a[1]) && !objkind[a[1]] && SL (a[2]) && SL (a[3]) && !input_pending && user_ob;
   if (!strcmp (op, "input"))
     return input_pending;
   if (!strcmp (op, "clones"))
@@ -784,6 +804,27 @@ static int c06_cmd (char *line)
             remove_destructed_objects ();
           }
       }
+      /* the programs of the replace_program() family are loaded before the baseline, too */
+      for (int L = 0; L < NLAY; L++)
+        {
+          char nm[32];
+          object_t *tmp;
+          snprintf (nm, sizeof nm, "/c06/rc%s", lay_name[L]);
+          clone_name = nm;
+          tmp = clone_uobj ();
+          clone_name = "/c06/uobj";
+          if (!tmp || tmp->prog->num_inherited != 2)
+            {
+              vh_out ("harness-error layout %s", lay_name[L]);
+              halted = 1;
+              return 1;
+            }
+          lay_prog[L][2] = tmp->prog;
+          lay_prog[L][0] = tmp->prog->inherit[0].prog;
+          lay_prog[L][1] = tmp->prog->inherit[1].prog;
+          destruct_object (tmp);
+          remove_destructed_objects ();
+        }
       snapshot (base);
       {
         static const char *nm[8] = { "cb", "cbs0", "cbs1", "cbs2", "cbs3", "act", "cbe", "cbd" };
@@ -897,6 +938,17 @@ static int c06_cmd (char *line)
           status = "drivererr";
         }
       unloaded[a[1]] = 1;
+    }
+  else if (!strcmp (t[0], "replace"))
+    {
+      /* the object calls replace_program() on itself (deferred), then the backend's replace_programs() */
+      char arg[2] = { (char) ('0' + a[2]), 0 };
+      char *w[1] = { arg };
+      if (vh_apply_str (hobj (a[1]), "shrink", 1, w, 0, 0) != 0)
+        status = "lpcerr";
+      replace_programs ();
+      objrepl[a[1]] = 1;
+      applied = 1;
     }
   else if (!strcmp (t[0], "fefun") || !strcmp (t[0], "frest"))
     {
@@ -1049,8 +1101,16 @@ static int c06_cmd (char *line)
       || !strcmp (t[0], "sappend") || !strcmp (t[0], "sjoin") || !strcmp (t[0], "sadd") || !strcmp (t[0], "schar")
       || !strcmp (t[0], "srange"))
     track_slot (a[1]);
-  else if (!strcmp (t[0], "newobj"))
+  else if (!strcmp (t[0], "newobj") || !strcmp (t[0], "newobjr"))
     {
+      objkind[a[1]] = t[0][6] == 'r' ? 1 + a[2] : 0;
+      objrepl[a[1]] = 0;
+      if (t[0][6] == 'r' && !lay_tracked[a[2]])
+        {
+          lay_tracked[a[2]] = 1;
+          for (int j = 0; j < 3; j++)
+            track (lay_prog[a[2]][j], K_PROG);
+        }
       if (hobj (a[1]))
         track (hobj (a[1]), K_OBJ);
       exist_used[a[1]] = 1;
